@@ -70,6 +70,21 @@ def step (st : St) (toks : List String) : St × String :=
     | _, _, _, _, _, _ => (st, "bad-op")
   | ["oinvalidate", sid] => ({ st with o := st.o.invalidate (chars sid) }, "ok")
   | ["oexpire", sid] => ({ st with o := setExp st.o (chars sid) (some 0) }, "ok")
+  | ["sremain", sid] =>
+    let e := match st.o.get (chars sid) with
+      | some e => some e
+      | none => st.s.get (chars sid)
+    match e with
+    | none => (st, "ok none")
+    | some e =>
+      match e.expiration with
+      | none => (st, "ok never")
+      | some t =>
+        let cls := if t ≤ st.now then "past"
+          else if t - st.now = 1800 then "lease"
+          else if t - st.now = 3600 then "duration"
+          else s!"other:{t - st.now}"
+        (st, s!"ok {cls}")
   | ["sexpire", sid] => ({ st with s := setExp st.s (chars sid) (some 0) }, "ok")
   | ["srenew", sid] =>
     match st.s.get (chars sid) with
@@ -98,6 +113,17 @@ def step (st : St) (toks : List String) : St × String :=
           ({ st with c := clientStore c1 (chars tg) (chars ad) e }, s!"ok full sid={sid}")
         | _ => ({ st with c := c1 }, "ok full sid=~")
     | _, _, _, _, _ => (st, "bad-op")
+  | "cid" :: _ =>
+    match g "sid", g "answer" with
+    | some sid, some an =>
+      let answer : ServerAnswer := if an == "authorized" then .authorized else if an == "sidNotFound" then .sidNotFound
+        else if an == "broken" then .broken else .other an
+      let (c1, stp) := clientById st.c st.now (chars sid) answer
+      match stp with
+      | .resumed sid _ _ _ => ({ st with c := c1 }, s!"ok resumed sid={shows sid}")
+      | .resumeFailed sid => ({ st with c := c1 }, s!"ok resume-failed sid={shows sid}")
+      | .full => ({ st with c := c1 }, "ok other")
+    | _, _ => (st, "bad-op")
   | ["cexpire", sid] => ({ st with c := setExp st.c (chars sid) (some 0) }, "ok")
   | ["cinvalidate", sid] => ({ st with c := st.c.invalidate (chars sid) }, "ok")
   | ["cgc"] => ({ st with c := st.c.invalidateExpired st.now }, "ok")
